@@ -17,7 +17,7 @@ func init() {
 			"R3 the values appended to BadNode.Tokens are results of Token.Clone(), never the address of the live token. " +
 			"R4 BadNode.SQL decides the separator between two raw tokens from both trivia fields of the token (Space and Comments), or unconditionally. " +
 			"Does not decide: which tokens should be skipped (nesting counters), the '>>' split inside handleParseTypeError.",
-		Rules: []ruleFn{ruleC10R1, ruleC10R2, ruleC10R3, ruleC10R4, ruleC10R5},
+		Rules: []ruleFn{ruleC10R1, ruleC10R2, ruleC10R3, ruleC10R4, ruleC10R5, ruleC05R6},
 	})
 }
 
